@@ -30,6 +30,7 @@ InitObs(P) ==
     fresh |-> {},           \* tasks created by the segment that is running now
     prio  |-> EmptyFn,      \* batch -> <<base, n, tb>> reported in the current selection round
     prov  |-> EmptyFn,      \* lazy future -> number of provider runs
+    dreg  |-> EmptyFn,      \* C12: (function, key) -> the in-flight deduplicated task, as the property defines it
     aband |-> {},           \* tasks given up by a runaway-recursion reset (their computation ended with RuntimeError)
     ovf   |-> FALSE,        \* a synchronous call has just failed with the runaway-recursion RuntimeError (scheduler reset)
     nflush |-> 0,           \* scheduler flushes of the current outermost call
@@ -172,7 +173,10 @@ Step(S, e) ==
         LET f == e.a
             known == f \in DOMAIN S.fut
             S1 == [S EXCEPT !.fut = Upd(@, f, FutRec(TRUE, e.v, e.u)),
-                            !.ts = IF f \in DOMAIN S.ts THEN [@ EXCEPT ![f].st = "done"] ELSE @]
+                            !.ts = IF f \in DOMAIN S.ts THEN [@ EXCEPT ![f].st = "done"] ELSE @,
+                            !.dreg = IF f \in DOMAIN S.ts /\ f <= NTasks(P) /\ HasDedup(P, f) /\ DedupKey(P, f) \in DOMAIN @
+                                        /\ @[DedupKey(P, f)] = f
+                                     THEN Upd(@, DedupKey(P, f), 0) ELSE @]
             taskBad ==
               IF f \notin DOMAIN S.ts THEN {} ELSE
               LET T == S.ts[f] IN
@@ -336,6 +340,21 @@ Step(S, e) ==
                     (IF YieldOnly(P) /\ TreeShaped(P) /\ SingleKind(P) /\ S.ref # <<>> /\ S.ncall = 1 /\ P.kinds[1].flush # "spawn"
                      THEN IfBad(S.nflush = CriticalPath(P, root), "C04.count") ELSE {}) \cup
                     IfBad(NoFaultyCtx(P) => S.cstk = <<>>, "C06.alt.end")]
+
+    [] e.e = "DedupCall" ->
+        \* task e.t called the deduplicated function for call site e.a and was handed task e.b
+        LET K == DedupKey(P, e.a)
+            w0 == IF K \in DOMAIN S.dreg THEN S.dreg[K] ELSE 0
+            inflight == w0 # 0 /\ ~FutDone(S, w0)
+            inside == w0 \in Range(S.run)            \* the call comes from inside the running body: not judged
+            isNew == e.b = e.a
+        IN [S |-> IF isNew /\ ~inflight THEN [S EXCEPT !.dreg = Upd(@, K, e.a)] ELSE S,
+            bad |-> IfBad((inflight /\ ~inside) => e.b = w0, "C12.share") \cup
+                    IfBad(~inflight => isNew, "C12.again") \cup
+                    IfBad(e.b <= NTasks(P) /\ HasDedup(P, e.b) /\ DedupKey(P, e.b) = K, "C12.sep")]
+
+    [] e.e = "Dirty" ->
+        [S |-> [S EXCEPT !.dreg = Upd(@, DedupKey(P, e.a), 0)], bad |-> {}]
 
     [] e.e = "Closed" -> [S |-> S, bad |-> {}]
     [] e.e = "Hang"   -> [S |-> S, bad |-> {"C03.term"}]
